@@ -8,6 +8,7 @@ from typing import List, Optional
 from vlib import chload
 drf = chload.load()
 import digital_rf.digital_metadata as M
+chload.warm(M.DigitalMetadataReader)
 
 W = 100          # samples per file in the harness channel (1 Hz, 100 s files)
 
